@@ -1,10 +1,78 @@
-(* Property C07 — clone fidelity and independence.  Only statements and [exact]; proofs live in Proofs/SymCoreC07.v. *)
-From PG Require Import Common.Tactics Model.SymCoreDefs Model.SymCoreOps Model.SymCoreSpec Proofs.SymCoreBase Proofs.SymCoreC07.
+(* Property C07 — clone fidelity and independence.  Only statements and [exact]; proofs live in Proofs/SymCoreC07.v,
+   Proofs/SymCoreClone.v. *)
+From PG Require Import Common.Tactics Model.SymCoreDefs Model.SymCoreOps Model.SymCoreSpec
+     Proofs.SymCoreBase Proofs.SymCoreWF Proofs.SymCoreClone Proofs.SymCoreWFOps Proofs.SymCoreC07.
 From Coq Require Import NArith.
 
-(* Cloning never modifies what exists: the step appends the copy as a new root and leaves every slot as it was. *)
+(* What a clone step does: the copy [clone_at ...] of the node found at the position is appended as a new root; every
+   existing slot stays exactly as it was (cloning never modifies the original, nor anything else). *)
+Theorem C07_clone_step : forall q st o m tid tk pa pt fl its,
+  o_op o = Clone m -> get_at st (o_pos o) = Some (Node tid tk pa pt fl its) ->
+  let r := clone_at (q_copy_drops_missing q) (N.eqb m 1 || N.eqb m 3) None [] (Node tid tk pa pt fl its) (next_id st, []) in
+  roots (fst (step q st o)) = roots st ++ [Live (fst r)] /\
+  next_id (fst (step q st o)) = fst (snd r) /\
+  snd (step q st o) = Ok (RPos (length (roots st), [])).
+Proof. exact clone_step. Qed.
+Print Assumptions C07_clone_step.
+
 Theorem C07_original_untouched : forall q st o m,
   o_op o = Clone m ->
   roots (fst (step q st o)) = roots st \/ exists c, roots (fst (step q st o)) = roots st ++ [Live c].
 Proof. exact clone_appends. Qed.
 Print Assumptions C07_original_untouched.
+
+(* The copy is the same value: same keys, same leaves, same classes (deep or shallow; under any parent / path) ... *)
+Theorem C07_clone_equal : forall q deep n pa p cs ep0 epth0,
+  no_quirks q -> wf_node ep0 epth0 n ->
+  erase (fst (clone_at (q_copy_drops_missing q) deep pa p n cs)) = erase n.
+Proof. intros. eapply clone_erase; eauto. left; auto. Qed.
+Print Assumptions C07_clone_equal.
+(* ... with the open finding (a list that holds MISSING_VALUE loses it in the copy): for every value that holds none *)
+Theorem C07_clone_equal_partial : forall q deep n pa p cs ep0 epth0,
+  wf_node ep0 epth0 n -> every holds_no_missing n ->
+  erase (fst (clone_at (q_copy_drops_missing q) deep pa p n cs)) = erase n.
+Proof. intros. eapply clone_erase; eauto. right; auto. Qed.
+Print Assumptions C07_clone_equal_partial.
+Theorem C07_clone_equal_refuted :
+  erase (fst (clone_at true false None [] refute_list (9%N, []))) <> erase refute_list.
+Proof. exact clone_equal_refuted. Qed.
+Print Assumptions C07_clone_equal_refuted.
+
+(* ... with the same flags (sealed, accessor-writable, partial) on every corresponding node ... *)
+Theorem C07_clone_flags : forall q deep n pa p cs ep0 epth0,
+  wf_node ep0 epth0 n -> copy_exact (q_copy_drops_missing q) n ->
+  kflags (fst (clone_at (q_copy_drops_missing q) deep pa p n cs)) = kflags n.
+Proof. intros. eapply clone_flags; eauto. Qed.
+Print Assumptions C07_clone_flags.
+
+(* ... it is a well-formed tree of its own ... *)
+Theorem C07_clone_wf : forall dm deep n cs ep0 epth0,
+  wf_node ep0 epth0 n -> wf_node None [] (fst (clone_at dm deep None [] n cs)).
+Proof. intros. eapply clone_at_wf; eauto. Qed.
+Print Assumptions C07_clone_wf.
+
+(* ... made of fresh, pairwise distinct node ids: it shares no symbolic node with anything that exists ... *)
+Theorem C07_clone_fresh : forall dm deep n pa p cs,
+  (fst cs <= fst (snd (clone_at dm deep pa p n cs)))%N /\
+  in_range (fst cs) (fst (snd (clone_at dm deep pa p n cs))) (ids (fst (clone_at dm deep pa p n cs))) /\
+  NoDup (ids (fst (clone_at dm deep pa p n cs))).
+Proof. exact clone_at_ids. Qed.
+Print Assumptions C07_clone_fresh.
+
+(* ... and a shallow copy shares exactly the non-symbolic leaf objects: the same identities at the same places. *)
+Theorem C07_shallow_shares_leaves : forall dm n pa p cs ep0 epth0,
+  wf_node ep0 epth0 n -> copy_exact dm n -> oview (fst (clone_at dm false pa p n cs)) = oview n.
+Proof. exact shallow_shares_leaves. Qed.
+Print Assumptions C07_shallow_shares_leaves.
+
+(* copy.copy / copy.deepcopy / Dict.copy coincide with clone() / clone(deep=True) / clone() *)
+Theorem C07_copy_is_clone : forall q st sc ps,
+  step q st (mkSop sc ps (Clone 2)) = step q st (mkSop sc ps (Clone 0)) /\
+  step q st (mkSop sc ps (Clone 3)) = step q st (mkSop sc ps (Clone 1)).
+Proof. exact copy_is_clone. Qed.
+Print Assumptions C07_copy_is_clone.
+Theorem C07_dict_copy_is_clone : forall q st sc ps tid pa pt fl its,
+  get_at st ps = Some (Node tid KDict pa pt fl its) ->
+  step q st (mkSop sc ps DCopy) = step q st (mkSop sc ps (Clone 0)).
+Proof. exact dict_copy_is_clone. Qed.
+Print Assumptions C07_dict_copy_is_clone.
